@@ -40,6 +40,19 @@ func (c *Ctx) DeriveTargets(rule string, out *[]report.Obligation) []immTarget {
 	}
 	for _, f := range ms {
 		ts = append(ts, immTarget{Fn: f, Src: 0, CheckRet: c.returnsProject(f), WhatSrc: "the receiver project", Callbacks: true})
+		// a slice or map handed in by the caller is not stored into the result either: the caller (who may have
+		// passed a field of the receiver) and the result would share it
+		if c.returnsProject(f) {
+			for i, pa := range f.Params {
+				if i == 0 {
+					continue
+				}
+				switch pa.Type().Underlying().(type) {
+				case *types.Slice, *types.Map:
+					ts = append(ts, immTarget{Fn: f, Src: i, CheckRet: true, WhatSrc: "the argument " + pa.Name()})
+				}
+			}
+		}
 	}
 	for _, f := range c.P.ExportedFuncs("graph") {
 		if i := c.projectParam(f); i >= 0 {
@@ -211,5 +224,84 @@ func (c *Ctx) INPUTS(rule string) []report.Obligation {
 		out = append(out, bad(rule+"-cfg", "ConfigFile.Config :: converting copy", "", "no use of ConfigFile.Config found that hands it to a converting function: the rule sees nothing"))
 	}
 	out = append(out, report.Obligation{Rule: rule, Key: "inventory", Status: report.Discharged, Why: fmt.Sprintf("%d writes of ConfigDetails.Environment, %d uses of ConfigFile.Config in package loader", nEnv, nCfg)})
+	return out
+}
+
+// DC: the generated deep copy knows every field. For each generated function deriveDeepCopy*(dst, src *T) with
+// T a struct, every field of T is written in dst (stored, or its address handed to a nested copy): a field added
+// to a model type without regenerating the copy is silently dropped by every derivation.
+func (c *Ctx) DC(rule string) []report.Obligation {
+	var out []report.Obligation
+	n, nf := 0, 0
+	for _, fn := range c.P.Funcs {
+		if !strings.HasPrefix(c.P.FuncID(fn), "types.deriveDeepCopy") || len(fn.Params) != 2 || fn.Parent() != nil {
+			continue
+		}
+		pt, ok := fn.Params[0].Type().(*types.Pointer)
+		if !ok || !types.Identical(fn.Params[0].Type(), fn.Params[1].Type()) {
+			continue
+		}
+		st, ok := pt.Elem().Underlying().(*types.Struct)
+		if !ok {
+			continue
+		}
+		n++
+		touched := map[int]bool{}
+		whole := false
+		// dst itself, the cell it is spilled to when closures capture it, and the captured variable inside them
+		isDst := func(v ssa.Value) bool {
+			if v == ssa.Value(fn.Params[0]) {
+				return true
+			}
+			if ld, ok := v.(*ssa.UnOp); ok && ld.Op == token.MUL {
+				switch cell := ld.X.(type) {
+				case *ssa.Alloc:
+					for _, r := range *cell.Referrers() {
+						if st, ok := r.(*ssa.Store); ok && st.Addr == ssa.Value(cell) && st.Val == ssa.Value(fn.Params[0]) {
+							return true
+						}
+					}
+				case *ssa.FreeVar:
+					return cell.Name() == fn.Params[0].Name()
+				}
+			}
+			return false
+		}
+		var scan func(f *ssa.Function)
+		scan = func(f *ssa.Function) {
+			for _, b := range f.Blocks {
+				for _, in := range b.Instrs {
+					switch x := in.(type) {
+					case *ssa.FieldAddr:
+						if isDst(x.X) {
+							touched[x.Field] = true
+						}
+					case *ssa.Store:
+						if isDst(x.Addr) {
+							whole = true // *dst = *src (all fields scalar)
+						}
+					}
+				}
+			}
+			for _, af := range f.AnonFuncs {
+				scan(af)
+			}
+		}
+		scan(fn)
+		var missing []string
+		for i := 0; i < st.NumFields(); i++ {
+			nf++
+			if !touched[i] && !whole {
+				missing = append(missing, st.Field(i).Name())
+			}
+		}
+		tn := types.TypeString(pt.Elem(), func(*types.Package) string { return "" })
+		out = append(out, verdict(len(missing) == 0, rule, "deep copy of "+tn+" :: every field copied", c.P.Pos(fn.Pos()),
+			fmt.Sprintf("all %d fields are written in the copy", st.NumFields()), "field(s) "+strings.Join(missing, ", ")+" of "+tn+" are not written by the generated deep copy ("+c.P.FuncID(fn)+"): every derivation returns a project without them"))
+	}
+	if n == 0 {
+		out = append(out, bad(rule, "types :: generated deep copy", "", "no deriveDeepCopy function over a struct found: the rule sees nothing"))
+	}
+	c.Stats[rule+".fields"] = nf
 	return out
 }
